@@ -8,6 +8,16 @@
   the repair `~CMsgPackReadArrayScope` skips the unread elements, an array scope left partly read was
   the recorded class `msgpack-array-left-partly-read`; the oracle now demands the data-model answers
   after such a close as after any other.)
+
+  Values may be ext values and timestamps (ext type -1): scalars of the data model like any other — skipped as a whole
+  when they are not read, loaded only into a timestamp target (a timestamp) and mismatched for every other target;
+  timestamps may be keys.
+
+  A `bin` value is a LIST OF BYTES. `OpenBinaryScope` on it gives its length; the byte reads deliver its bytes in order,
+  one past the last is OutOfRange; closing the scope — fully read, partly read or not read at all — passes over the
+  whole value, so whatever is left unread does not disturb what follows. `OpenBinaryScope` on a value that is not a
+  `bin` answers "no" and leaves that value where it is: it is still the next value of the array / the root (a byte
+  container then loads it through `OpenArrayScope`), and it does not count as an element.
 -/
 import BSVerif.Scope.Model
 
@@ -63,6 +73,7 @@ def parseDoc (ts : List Tok) : Option (List Val) :=
 def keyOf : Val → Option Key
   | .sc (.str s) => some (.str s)
   | .sc (.int v) => some (.int v)
+  | .sc (.ts s n) => some (.ts s n)
   | _ => none
 
 /-- abstract scope views -/
@@ -70,6 +81,7 @@ inductive View where
   | root (vals : List Val) (idx : Nat)
   | obj (entries : List (Val × Val))
   | arr (items : List Val) (idx : Nat)
+  | bin (bytes : List Nat) (idx : Nat)
   deriving Repr
 
 def lookup (entries : List (Val × Val)) (k : Key) : Option Val :=
@@ -104,7 +116,12 @@ def judgeTruncated (doc : List Tok) (reqs : List Req) (answers : List Ans) : Str
   let top := completeTop doc
   let rec go : List Req → List Ans → Nat → Nat → Bool → Bool
     | q :: qs, a :: as, depth, rootIdx, touched =>
-      let isRootReq := depth == 0 && (match q with | .next _ | .openArr | .openObj => true | _ => false)
+      -- `OpenBinaryScope` at the root consumes a value only when it opens (a value of another type stays in place;
+      -- an incomplete container is never a `bin`, so such a request does not reach the missing part)
+      let isRootReq := depth == 0 && (match q, a with
+        | .next _, _ | .openArr, _ | .openObj, _ => true
+        | .openBin, .opened _ => true
+        | _, _ => false)
       let touched' := touched || (isRootReq && rootIdx == top)
       let rootIdx' := if isRootReq then rootIdx + 1 else rootIdx
       let depth' := match a with | .opened _ => depth + 1 | .closed => depth - 1 | _ => depth
@@ -162,6 +179,16 @@ def judge (mis : Mis) (doc : List Tok) (reqs : List Req) (answers : List Ans) : 
           | some (.map es) => expect (.opened es.length) (.obj es :: .arr items (idx + 1) :: tl)
           | some (.sc .nil) => expect .no (.arr items (idx + 1) :: tl)
           | some _ => expect (if mis = .throwError then .err .mismatched else .no) (.arr items (idx + 1) :: tl)
+        | .root vs idx :: tl, .openBin =>
+          match vs[idx]? with
+          | none => expect (.err .parsing) views
+          | some (.sc (.bin bs)) => expect (.opened bs.length) (.bin bs 0 :: .root vs (idx + 1) :: tl)
+          | some _ => expect .no views                       -- left in place: still the next value
+        | .arr items idx :: tl, .openBin =>
+          match items[idx]? with
+          | none => expect (.err .outOfRange) views
+          | some (.sc (.bin bs)) => expect (.opened bs.length) (.bin bs 0 :: .arr items (idx + 1) :: tl)
+          | some _ => expect .no views                       -- left in place and not counted
         | .arr items idx :: _, .isEnd => expect (.flag (idx = items.length)) views
         | .arr _ _ :: tl, .close => expect .closed tl
         | .obj es :: tl, .get k ty =>
@@ -180,6 +207,16 @@ def judge (mis : Mis) (doc : List Tok) (reqs : List Req) (answers : List Ans) : 
           | some (.sc .nil) => expect .no views
           | some _ => expect (if mis = .throwError then .err .mismatched else .no) views
           | none => expect .no views
+        | .obj es :: _, .openBinK k =>
+          match lookup es k with
+          | some (.sc (.bin bs)) => expect (.opened bs.length) (.bin bs 0 :: views)
+          | _ => expect .no views
+        | .bin bs idx :: tl, .readByte =>
+          match bs[idx]? with
+          | some b => expect (.val (.byte b)) (.bin bs (idx + 1) :: tl)
+          | none => expect (.err .outOfRange) views
+        | .bin bs idx :: _, .isEnd => expect (.flag (idx = bs.length)) views
+        | .bin _ _ :: tl, .close => expect .closed tl
         | .obj es :: _, .visit => expect (.keys (es.filterMap fun e => keyOf e.1)) views
         | .obj _ :: tl, .close => expect .closed tl
         | _, _ => "nospec"
